@@ -220,9 +220,13 @@ def fd_jacobian(comp_factory, inputs, outputs, rel=1e-6):
         return np.concatenate([np.array(prob.get_val(o), dtype=float).ravel() for o in outputs])
 
     x0 = flat_cat(inputs, list(inputs))
+    # step relative to the entry, or to the largest entry of the same input array when the entry is (near) zero
+    scale = np.concatenate([np.full(np.asarray(inputs[k]).size, max(float(np.max(np.abs(np.asarray(inputs[k], dtype=float)))) if np.asarray(inputs[k]).size else 0.0, 0.0))
+                            for k in inputs]) if len(inputs) else np.zeros(0)
     cols = []
     for c in range(x0.size):
-        h = rel * max(1.0, abs(x0[c]))
+        ref = abs(x0[c]) if abs(x0[c]) > 1e-3 * scale[c] else scale[c]
+        h = rel * (ref if ref > 0 else 1.0)
         e = np.zeros_like(x0); e[c] = h
         d1 = (f(x0 + e) - f(x0 - e)) / (2 * h)
         d2 = (f(x0 + e / 2) - f(x0 - e / 2)) / h
